@@ -10,6 +10,7 @@ import (
 	"errors"
 	"fmt"
 	"io"
+	"reflect"
 	"sort"
 	"strconv"
 	"strings"
@@ -148,41 +149,18 @@ func (c content) dupKey() (int, bool) {
 	return 0, false
 }
 
-func scalarRank(n *jnode, typ string) (int, error) {
-	if isStr(typ) {
-		if n.kind != 's' {
-			return 0, fmt.Errorf("JSON %s where a string is expected", kindName(n.kind))
-		}
-		if r, ok := strOf(typ).idx[n.str]; ok {
-			return r, nil
-		}
-		return 0, fmt.Errorf("string %s is not an atom of the pool", showString(n.str))
-	}
-	if n.kind != 'n' {
-		return 0, fmt.Errorf("JSON %s where an integer is expected", kindName(n.kind))
-	}
-	return intTextRank(n.str, typ)
-}
-
-func intTextRank(s, typ string) (int, error) {
-	v, err := strconv.ParseInt(s, 10, 64)
-	if err != nil {
-		return 0, fmt.Errorf("%q is not an integer", s)
-	}
-	if r, ok := intOf(typ).idx[int(v)]; ok {
-		return r, nil
-	}
-	return 0, fmt.Errorf("integer %d is not an atom of the pool", v)
-}
+func scalarRank(n *jnode, typ string) (int, error) { return atomOf(typ).fromNode(n) }
 
 func keyRank(k, typ string) (int, error) {
-	if isStr(typ) {
-		if r, ok := strOf(typ).idx[k]; ok {
-			return r, nil
-		}
-		return 0, fmt.Errorf("key %s is not an atom of the pool", showString(k))
+	a := atomOf(typ)
+	if a.fromKey == nil {
+		return 0, errors.New(typ + " is not a key type")
 	}
-	return intTextRank(k, typ)
+	r, err := a.fromKey(k)
+	if err != nil {
+		return 0, fmt.Errorf("key %s: %v", showString(k), err)
+	}
+	return r, nil
 }
 
 func kindName(k byte) string {
@@ -224,24 +202,6 @@ func docContent(n *jnode, kv bool, kt, vt string) (content, error) {
 
 // ---------- denotation with encoding/json only ----------
 
-func decodeAtom(dec *json.Decoder, typ string) (int, error) {
-	if isStr(typ) {
-		var s string // null leaves the zero value
-		if err := dec.Decode(&s); err != nil {
-			return 0, err
-		}
-		if r, ok := strOf(typ).idx[s]; ok {
-			return r, nil
-		}
-		return 0, fmt.Errorf("string %s is not an atom of the pool", showString(s))
-	}
-	var v int
-	if err := dec.Decode(&v); err != nil {
-		return 0, err
-	}
-	return intTextRank(strconv.Itoa(v), typ)
-}
-
 // denote: what encoding/json says the document denotes for []T / an ordered member list of
 // (K, V); an error when it is not a valid document of that type.
 func denote(doc []byte, kv bool, kt, vt string) (content, error) {
@@ -250,33 +210,9 @@ func denote(doc []byte, kv bool, kt, vt string) (content, error) {
 		return c, errors.New("invalid JSON")
 	}
 	if !kv {
-		switch {
-		case isStr(kt):
-			var xs []string
-			if err := json.Unmarshal(doc, &xs); err != nil {
-				return c, err
-			}
-			for _, s := range xs {
-				r, ok := strOf(kt).idx[s]
-				if !ok {
-					return c, fmt.Errorf("string %s is not an atom of the pool", showString(s))
-				}
-				c.arr = append(c.arr, r)
-			}
-		default:
-			var xs []int
-			if err := json.Unmarshal(doc, &xs); err != nil {
-				return c, err
-			}
-			for _, v := range xs {
-				r, err := intTextRank(strconv.Itoa(v), kt)
-				if err != nil {
-					return c, err
-				}
-				c.arr = append(c.arr, r)
-			}
-		}
-		return c, nil
+		arr, err := atomOf(kt).decodeArray(doc)
+		c.arr = arr
+		return c, err
 	}
 	dec := json.NewDecoder(bytes.NewReader(doc))
 	tok, err := dec.Token()
@@ -299,7 +235,7 @@ func denote(doc []byte, kv bool, kt, vt string) (content, error) {
 		if err != nil {
 			return c, err
 		}
-		vr, err := decodeAtom(dec, vt)
+		vr, err := atomOf(vt).decode(dec)
 		if err != nil {
 			return c, err
 		}
@@ -310,22 +246,13 @@ func denote(doc []byte, kv bool, kt, vt string) (content, error) {
 
 // typedDecodeFails: does encoding/json reject the document for []T / map[K]V?
 func typedDecodeFails(doc []byte, kv bool, kt, vt string) bool {
-	var target any
-	switch {
-	case !kv && isStr(kt):
-		target = &[]string{}
-	case !kv:
-		target = &[]int{}
-	case isStr(kt) && isStr(vt):
-		target = &map[string]string{}
-	case !isStr(kt) && isStr(vt):
-		target = &map[int]string{}
-	case isStr(kt) && !isStr(vt):
-		target = &map[string]int{}
-	default:
-		target = &map[int]int{}
+	var target reflect.Value
+	if kv {
+		target = reflect.New(reflect.MapOf(atomOf(kt).goType, atomOf(vt).goType))
+	} else {
+		target = reflect.New(reflect.SliceOf(atomOf(kt).goType))
 	}
-	return json.Unmarshal(doc, target) != nil
+	return json.Unmarshal(doc, target.Interface()) != nil
 }
 
 // ---------- rendering ----------
@@ -394,37 +321,13 @@ func (c *docGen) strLit(s string) string {
 	return b.String()
 }
 
-func (c *docGen) lit(typ string, r int) string {
-	switch {
-	case isStr(typ):
-		return c.strLit(strOf(typ).pool[r])
-	case typ != "rank":
-		if intOf(typ).pool[r] == 0 && c.style >= 2 && c.g.chance(20) {
-			return "-0"
-		}
-		return strconv.Itoa(intOf(typ).pool[r])
-	}
-	return strconv.Itoa(r)
-}
+func (c *docGen) lit(typ string, r int) string { return atomOf(typ).lit(c, r) }
 
 func (c *docGen) keyLit(typ string, r int) string {
-	switch {
-	case isStr(typ):
-		return c.strLit(strOf(typ).pool[r])
-	case typ != "rank":
-		v := intOf(typ).pool[r]
-		s := strconv.Itoa(v)
-		if c.style >= 2 && v >= 0 {
-			switch x := c.g.intn(100); {
-			case x < 4:
-				s = "0" + s // strconv.ParseInt accepts leading zeros
-			case x < 8:
-				s = "+" + s // and an explicit sign
-			}
-		}
-		return `"` + s + `"`
+	if f := atomOf(typ).keyLit; f != nil {
+		return f(c, r)
 	}
-	return `"` + strconv.Itoa(r) + `"`
+	return `"k` + strconv.Itoa(r) + `"` // not a key type (only used in malformed documents)
 }
 
 // nullAt >= 0: that element / member value is written as null (denotes the zero value)
@@ -476,12 +379,7 @@ func (c *docGen) render(ct content, nullAt int) []byte {
 	return b.Bytes()
 }
 
-func zeroRank(typ string) int {
-	if isStr(typ) {
-		return strOf(typ).idx[""]
-	}
-	return intOf(typ).idx[0]
-}
+func zeroRank(typ string) int { return atomOf(typ).zero }
 
 // plainDoc renders a content for the int twin (ranks as decimals, no decoration)
 func plainDoc(ct content) []byte {
@@ -496,17 +394,13 @@ var syntaxErrors = []string{
 	`{"a":"b"}}`, `["a"]x`, `nul`, `{"a" "b"}`, `[`, `{`, `{"a"`, `{"a":`, `["a",,"b"]`, ` `, `["a";"b"]`,
 	`["a"]["b"]`, `{"a":"b"}{"c":"d"}`, `["\x"]`, `["\u12"]`, "[\"a\nb\"]", "[\"a\tb\"]", `["a]`, `{"a":"b","c"}`,
 	`["\ud83d\u"]`, `{"a":"\"}`, `{"\":"a"}`, "[\"\x00\"]", `[1,2`, `{"1":2,}`, `[01]`, `[1,,2]`, `{"1":2 "2":3}`,
+	`{"a":1}}`, `[1]]`, `null]`, `{} }`, `[] ]`, `null}`, `{}}`, `[]]`, `null null`, `{"a":"b"} ]`, `["a"] }`, `[],`, `{},`, `null,`,
 	`[-]`, `[+1]`, `[.5]`, "\xef\xbb\xbf[]", `{"a":"b"]`, `["a"}`, `{"a":"b":"c"}`, `{"a"}`, `[:]`, `{,}`,
 }
 
 func (c *docGen) malformed(atom func() int, validDoc func() []byte) (doc []byte, what string) {
 	g := c.g
-	badFor := func(typ string) string {
-		if isStr(typ) {
-			return g.pick([]string{"1", "true", "false", "{}", "[]", `{"a":"b"}`, `["a"]`, "1.5", "-0", "0"})
-		}
-		return g.pick([]string{`"1"`, `"a"`, `""`, "true", "false", "1.5", "{}", "[1]", "1e2", "0.0", "9223372036854775808", "-9223372036854775809"})
-	}
+	badFor := func(typ string) string { return g.pick(atomOf(typ).bad) }
 	switch g.intn(6) {
 	case 0:
 		return []byte(g.pick(syntaxErrors)), "syntactically invalid"
@@ -525,7 +419,7 @@ func (c *docGen) malformed(atom func() int, validDoc func() []byte) (doc []byte,
 		pos := map[string]int{"first": 0, "middle": n / 2, "last": n - 1}[at]
 		var parts []string
 		used := map[int]bool{}
-		keyBad := c.kv && !isStr(c.kt) && g.chance(35)
+		keyBad := c.kv && atomOf(c.kt).class == "int" && g.chance(35)
 		for i := 0; i < n; i++ {
 			if !c.kv {
 				if i == pos {
